@@ -21,7 +21,7 @@ import (
 )
 
 type assocPair struct {
-	expr  int // 0 trip update only, 1 vehicle position only, 2 both
+	expr  int // 0 TU only, 1 VP only, 2 TU+VP both express it, 3 TU+VP only the TU expresses it, 4 TU+VP only the VP expresses it
 	vdesc int // 0 id, 1 label only, 2 none
 	tdesc int // 0 trip id, 1 route+direction+start
 	td    *gtfsrt.TripDescriptor
@@ -40,7 +40,7 @@ type assocMsg struct {
 	extraTrip, extraVehicle, alertMention bool
 }
 
-var exprNames = []string{"TU", "VP", "TU+VP"}
+var exprNames = []string{"TU", "VP", "TU+VP", "TU(assoc)+VP", "TU+VP(assoc)"}
 var vdescNames = []string{"id", "label", "none"}
 var tdescNames = []string{"tripid", "route+dir+start"}
 
@@ -50,7 +50,7 @@ func genAssoc(c *Ctx, nPairs int, withExtras bool, withConflicts bool) *assocMsg
 	var key strings.Builder
 	for i := 0; i < nPairs; i++ {
 		p := fmt.Sprintf("pair%d.", i+1)
-		ap := &assocPair{expr: c.Free(p+"expressed_by", 3), vdesc: c.Free(p+"vehicle_desc", 3), tdesc: c.Free(p+"trip_desc", 2)}
+		ap := &assocPair{expr: c.Free(p+"expressed_by", 5), vdesc: c.Free(p+"vehicle_desc", 3), tdesc: c.Free(p+"trip_desc", 2)}
 		if ap.tdesc == 0 {
 			ap.td = &gtfsrt.TripDescriptor{TripId: sp(fmt.Sprintf("T%d", i+1)), RouteId: sp("R")}
 		} else {
@@ -62,24 +62,32 @@ func genAssoc(c *Ctx, nPairs int, withExtras bool, withConflicts bool) *assocMsg
 		case 1:
 			ap.vd = &gtfsrt.VehicleDescriptor{Label: sp(fmt.Sprintf("label %d", i+1))}
 		}
-		if ap.expr == 0 || ap.expr == 2 {
+		hasTU := ap.expr != 1
+		hasVP := ap.expr != 0
+		tuNamesVehicle := ap.expr == 0 || ap.expr == 2 || ap.expr == 3
+		vpNamesTrip := ap.expr == 1 || ap.expr == 2 || ap.expr == 4
+		if hasTU {
 			ap.tuStop = fmt.Sprintf("TS%d", i+1)
 			tu := &gtfsrt.TripUpdate{Trip: cloneTD(ap.td), StopTimeUpdate: []*gtfsrt.TripUpdate_StopTimeUpdate{{StopId: sp(ap.tuStop)}}}
-			if ap.vd != nil {
+			if ap.vd != nil && tuNamesVehicle {
 				tu.Vehicle = cloneVD(ap.vd)
 			}
 			ents = append(ents, &gtfsrt.FeedEntity{Id: sp(fmt.Sprintf("tu%d", i+1)), TripUpdate: tu})
 		}
-		if ap.expr == 1 || ap.expr == 2 {
+		if hasVP {
 			ap.vpStop = fmt.Sprintf("VS%d", i+1)
-			vp := &gtfsrt.VehiclePosition{Trip: cloneTD(ap.td), StopId: sp(ap.vpStop)}
+			vp := &gtfsrt.VehiclePosition{StopId: sp(ap.vpStop)}
+			if vpNamesTrip {
+				vp.Trip = cloneTD(ap.td)
+			}
 			if ap.vd != nil {
 				vp.Vehicle = cloneVD(ap.vd)
 			}
 			ents = append(ents, &gtfsrt.FeedEntity{Id: sp(fmt.Sprintf("vp%d", i+1)), Vehicle: vp})
 		}
-		// a trip update without vehicle descriptor and no vehicle position associates nothing
-		ap.assoc = !(ap.expr == 0 && ap.vdesc == 2)
+		// the feed associates trip and vehicle iff the trip update names a (non-empty) vehicle or
+		// the vehicle position names the trip
+		ap.assoc = (hasTU && tuNamesVehicle && ap.vd != nil) || (hasVP && vpNamesTrip)
 		am.pairs = append(am.pairs, ap)
 		fmt.Fprintf(&key, "pair%d{%s,%s,%s} ", i+1, exprNames[ap.expr], vdescNames[ap.vdesc], tdescNames[ap.tdesc])
 	}
@@ -244,6 +252,9 @@ func c04Harness(nPairs int, extras bool) Harness {
 			}
 			if ap.expr == 2 {
 				c.Witness("association_expressed_twice")
+			}
+			if ap.expr == 3 || ap.expr == 4 {
+				c.Witness("association_expressed_by_one_of_two_entities")
 			}
 		}
 		for k := range r.Trips {
